@@ -64,15 +64,19 @@ class _Guard(MustFlow):
         return False
 
     def _none_guarded(self, names, state):
+        from rsx.flow import holds
         for nm in names:
-            if ('cond', False, nm + ' is None') in state or ('cond', True, nm + ' is not None') in state:
+            if ('cond', False, nm + ' is None') in state or ('cond', True, nm + ' is not None') in state or \
+                    holds(state, nm + ' is None', False):
                 return True
         return False
 
     def _nan_guarded(self, names, state):
+        from rsx.flow import holds
         for nm in names:
             if ('cond', False, 'np.isnan(%s.objval)' % nm) in state or \
-                    ('cond', True, 'not np.isnan(%s.objval)' % nm) in state:
+                    ('cond', True, 'not np.isnan(%s.objval)' % nm) in state or \
+                    holds(state, 'np.isnan(%s.objval)' % nm, False):
                 return True
         return False
 
@@ -81,8 +85,9 @@ class _Guard(MustFlow):
             if isinstance(n, ast.Attribute) and n.attr in SOL_FIELDS and isinstance(n.ctx, ast.Load) \
                     and self.is_solution_expr(n.value):
                 names = self.names_of(n.value)
-                self.reads.append((n, ntext(n.value), self._none_guarded(names, state),
-                                   self._nan_guarded(names, state), node))
+                st_here = self.local_state(node, n, state)       # `sol is not None and not isnan(sol.objval)`
+                self.reads.append((n, ntext(n.value), self._none_guarded(names, st_here),
+                                   self._nan_guarded(names, st_here), node))
 
 
 def scan_reads(fi):
